@@ -38,10 +38,41 @@ fn force_mode(r: &mut Rng, bytes: &mut Vec<u8>) {
     }
 }
 
+/// Many objects and control points whose times are distinct but closer than any tolerance, listed out of
+/// order: the inputs on which a tolerance-based time comparison stops being a total order (sorting more
+/// than 20 such items may then panic) or merges what equality keeps apart.
+pub fn near_equal_times_map(r: &mut Rng) -> String {
+    const TIMES: &[&str] = &["0", "-0", "0.00000000000000015", "0.0000000000000003", "4.9e-324", "0.5", "0.50000000000000011", "0.50000000000000022", "0.00000000000000045"];
+    let mode = r.below(4);
+    let mut s = format!("osu file format v14\n\n[General]\nMode: {mode}\n\n[TimingPoints]\n");
+    let ntp = if r.chance(1, 2) { 22 + r.below(20) } else { 1 + r.below(6) };
+    for i in 0..ntp {
+        let t = *r.pick(TIMES);
+        if i == 0 || r.chance(1, 3) {
+            s.push_str(&format!("{t},{},4,{},0,{},1,{}\n", [500, 333, 250][r.below(3)], 1 + r.below(3), [100, 60, 30][r.below(3)], r.below(2)));
+        } else {
+            s.push_str(&format!("{t},-{},4,{},{},{},0,{}\n", [100, 50, 200, 80][r.below(4)], 1 + r.below(3), r.below(3), [100, 70, 20][r.below(3)], r.below(2)));
+        }
+    }
+    s.push_str("\n[HitObjects]\n");
+    let nobj = 21 + r.below(25);
+    for _ in 0..nobj {
+        let t = *r.pick(TIMES);
+        let (x, y) = (r.below(512), r.below(384));
+        match r.below(if mode == 3 { 4 } else { 3 }) {
+            0 | 1 => s.push_str(&format!("{x},{y},{t},{},{},0:0:0:0:\n", 1 | if r.chance(1, 4) { 4 } else { 0 }, r.below(16))),
+            2 => s.push_str(&format!("{x},{y},{t},2,{},L|{}:{},{},{}\n", r.below(16), x + 40, y + 10, 1 + r.below(2), 40 + r.below(80))),
+            _ => s.push_str(&format!("{x},{y},{t},128,{},{}:0:0:0:0:\n", r.below(16), [1, 2, 50][r.below(3)])),
+        }
+    }
+    s
+}
+
 /// The hostile input stream shared by C01, C04 and C07.
 pub fn hostile_input(r: &mut Rng, corpus: &Corpus, max_len: usize) -> Input {
-    let (mut bytes, class): (Vec<u8>, &'static str) = match r.below(12) {
+    let (mut bytes, class): (Vec<u8>, &'static str) = match r.below(13) {
         0 => (gen::noise(r), "noise"),
+        12 => (near_equal_times_map(r).into_bytes(), "near-equal-times"),
         1 | 2 | 3 => {
             let cfg = osu::Cfg {
                 hostile: 2,
